@@ -439,7 +439,7 @@ func c01(c *Ctx) {
 		})
 		inDefault := false
 		for _, x := range incs {
-			if deflt.Pos() <= x.N.Pos() && x.N.End() <= deflt.End() {
+			if containsNoLitOrIn(deflt, x.N) {
 				inDefault = true
 			}
 		}
